@@ -236,6 +236,7 @@ def reorder_glyphs(font: ttLib.TTFont, new_glyph_order: List[str]):
     # glyph indexes have been fully.
     # Cf. https://github.com/fonttools/fonttools/issues/2060
     require_fully_loaded(font)
+    cff_top_dicts = _cff_top_dicts(font)
 
     font.setGlyphOrder(new_glyph_order)
 
@@ -248,3 +249,40 @@ def reorder_glyphs(font: ttLib.TTFont, new_glyph_order: List[str]):
                 reorder_key = (type(value), getattr(value, "Format", None))
                 for reorder in _REORDER_RULES.get(reorder_key, []):
                     reorder.apply(font, value)
+
+    _reorder_cff_charstrings(cff_top_dicts, new_glyph_order)
+
+
+def _cff_top_dicts(font: ttLib.TTFont) -> list:
+    # Must run while the font still has its old glyph order: a CFF2 top dict
+    # takes its glyph names from the font at the time it is first read.
+    top_dicts = []
+    for tag in ("CFF ", "CFF2"):
+        if tag in font:
+            top_dict = font[tag].cff.topDictIndex[0]
+            top_dict.CharStrings  # name => charstring index, in the old order
+            top_dicts.append(top_dict)
+    return top_dicts
+
+
+def _reorder_cff_charstrings(top_dicts: list, new_glyph_order: List[str]):
+    # A CFF/CFF2 table carries its own glyph order (the order of its charstrings),
+    # and that is the order the font has when it is next loaded: TTFont.setGlyphOrder
+    # alone leaves cmap, hmtx and friends pointing at the wrong charstrings.
+    for top_dict in top_dicts:
+        char_strings = top_dict.CharStrings
+        old_gids = {name: gid for gid, name in enumerate(top_dict.charset)}
+        reordered = [char_strings[name] for name in new_glyph_order]
+        if char_strings.charStringsAreIndexed:
+            char_strings.charStringsIndex.items = reordered
+            char_strings.charStrings = {
+                name: gid for gid, name in enumerate(new_glyph_order)
+            }
+        else:
+            char_strings.charStrings = dict(zip(new_glyph_order, reordered))
+        fd_select = getattr(top_dict, "FDSelect", None)
+        if fd_select is not None and getattr(fd_select, "gidArray", None):
+            fd_select.gidArray = [
+                fd_select.gidArray[old_gids[name]] for name in new_glyph_order
+            ]
+        top_dict.charset = list(new_glyph_order)
